@@ -30,8 +30,8 @@ func (sl *SatisfactionLevelsUpdateListeners) Spec_Fetch(listenerName string) *Sa
 }
 
 func (sl *SatisfactionLevelsUpdateListeners) Spec_Get(listenerName string, params interface{}) (SatisfactionLevelsUpdateListener, SatisfactionLevels) {
-	listener := *sl.Fetch(listenerName)
+	listener := *sl.Spec_Fetch(listenerName)
 	methodParams := listener.BlankParams()
-	utils.DecodeToStruct(params, &methodParams)
+	utils.Spec_DecodeToStruct(params, &methodParams)
 	return listener, methodParams
 }
